@@ -25,11 +25,11 @@ def run(tier):
         'cardinality_*, add_parity, majority/minority builders and add_constraint on CNF and OPB with symbolic polarities and an UNBOUNDED '
         'symbolic constant leave the list/tuple/row object passed by the caller exactly as it was. TseitinFormula charges, bipartite_shift '
         'patterns (also the shared default list) and every graph passed to a graph-taking generator keep all their public views.')
-    run.bounds = ['inputs: %s of the 303 small CNFs' % ('one in eight' if tier == 'quick' else 'all'), '62 first transformations x (none + 7 second ones)', 'builders: 3 literals, constant unbounded', 'graphs: all simple graphs / dags on <=4 vertices (6 edge bits)']
+    run.bounds = ['inputs: %s of the 303 small CNFs' % ('one in eight' if tier == 'quick' else 'all'), '62 first transformations x (none + 7 second ones)', 'long chains of 1..23 cheap steps (flip / or 1 / shuffle fixed / xor 1) on 10 inputs', 'builders: 3 literals, constant unbounded', 'graphs: all simple graphs / dags on <=4 vertices (6 edge bits)']
     run.outside = ['larger formulas, chains longer than two', 'the "none" transformation (documented to return the same object)']
     run.assumptions = ['CrossHair models of list/tuple mutation']
     T = 300 if tier == 'quick' else 1200
-    conds = [xengine.Cond('c19', n, T, symbolic=False) for n in tr] + [xengine.Cond('c19', 'h_e_other', T, symbolic=False)] + \
+    conds = [xengine.Cond('c19', n, T, symbolic=False) for n in tr] + [xengine.Cond('c19', 'h_e_other', T, symbolic=False), xengine.Cond('c19', 'h_e_longchain', T, symbolic=False)] + \
             [xengine.Cond('c19', n, T, symbolic=True) for n in ('h_s_builder_cnf', 'h_s_builder_opb', 'h_s_constraint_row')]
     part = xengine.run_conditions('c19.x', conds)
     from cnfgen.transformations import substitutions as S, shuffle
